@@ -73,13 +73,23 @@ def _freeze(x):
     return tuple(x) if isinstance(x, list) else x
 
 
-def build(case, world, *, order=None, perm=None, how="let", form="set_of", register=True, split_top_and=False):
+def build(case, world, *, order=None, perm=None, how="let", form="set_of", register=True, split_top_and=False,
+          negate_description=False):
     """-> (query, selected EQL expressions)"""
     from entity_query_language import symbolic_mode, an, set_of, entity
     doms = H.domains(world, case["kinds"], perm)
     with symbolic_mode():
         xs = H.declare(case["kinds"], doms, how, order)
+        C.CUR_WORLD = world
         cond = case["cond"]
+        if negate_description and cond is not None and cond[0] in ("not", "~") and form == "set_of":
+            # not_(set_of(selection, c1, c2, ...)): the negation applied to the DESCRIPTION (its conditions taken together)
+            from entity_query_language import not_
+            inner = cond[1]
+            parts = inner[1:] if inner[0] in ("and", "&") else [inner]
+            conds = [C.build(s, xs, 1, register) for s in parts]
+            sel_exprs = [xs[s] if isinstance(s, int) else C.bval(s, xs) for s in case["sel"]]
+            return an(not_(set_of(sel_exprs, *conds))), xs, sel_exprs
         if cond is None:
             conds = []
         elif split_top_and and cond[0] in ("and", "&"):
